@@ -72,6 +72,11 @@ def gpg_mutations(rng, signed):
         # white space on the line that separates the armor headers from the signed text (gpg still takes it for the separator)
         i = lines.index('')
         return 'separator-padded', j(lines[:i] + [rng.choice([' ', '\t', '  \t ', '\r', ' \r'])] + lines[i + 1:])
+    if r < 0.11:
+        # the newline between two lines replaced by a character that str.splitlines() - but not the parser - takes for a line end
+        i = rng.randrange(max(len(lines) - 1, 1))
+        sep = rng.choice(['\x0b', '\x0c', '\x1c', '\x1d', '\x1e', '\x85', '\u2028', '\u2029'])
+        return 'line-separator-swapped', j(lines[:i]) + ('\n' if i else '') + sep.join(lines[i:i + 2]) + '\n' + j(lines[i + 2:])
     if r < 0.12:
         i = rng.randrange(len(lines))
         return 'trailing-ws', j(lines[:i] + [lines[i] + rng.choice([' ', '\t', '  ', ' \t', '\r', '\x0c', '\xa0', '\x0b'])] + lines[i + 1:])
